@@ -113,4 +113,42 @@ example :
   have h2 : w2.LOK := Worker.lk_placeTask _ 8 _ h1 (by decide) (by decide)
   exact ⟨heldIffResident_of_tok _ h2, by decide, by decide⟩
 
+/-! ### profiles: the converse inclusion is FALSE of the model (finding)
+
+`Worker.load_profile` of a profile that is already loaded puts it into `_pending_profiles` as well
+(and charges the ledger entry a second time); `evict_profile` then deallocates the whole entry but
+removes the profile from `_available_profiles` only. The profile stays in `_pending_profiles`,
+later becomes available again, and holds nothing. The decision tape is arbitrary in the model: a
+policy that emits LOAD_PROFILE for a loaded profile and then EVICT_PROFILE reaches this state. -/
+
+/-- The worker of the counterexample worlds: pool 0, worker 0. -/
+def cxWorker (s : SimS) : Option Worker := (s.pools[0]?).bind (fun p => p.workers[0]?)
+
+def cxLoadNow : Strategy := ⟨9, false, 1, 0, [(⟨"GPU", none⟩, 1)]⟩
+def cxLoadSlow : Strategy := ⟨9, false, 1, 100, [(⟨"GPU", none⟩, 1)]⟩
+
+/-- One pool with one two-GPU worker, no task graph; the first scheduler answer loads profile 5
+(at 1), loads it again (at 2) and evicts it (at 3). -/
+def cxWorld : SimS :=
+  { flags := { loopTimeout := 1000 }, jobs := #[], allGraphs := #[], allMeta := #[],
+    pools := #[⟨[Worker.ofVec [(⟨"GPU", some 1⟩, 2)]], []⟩], poolNames := #["pool"], tape := [],
+    decisions := [⟨[{ kind := .load, task := ⟨0, 0⟩, profile := 5, time := some 1, pool := some 0, worker := some 0,
+                      strat := some cxLoadNow },
+                    { kind := .load, task := ⟨0, 0⟩, profile := 5, time := some 2, pool := some 0, worker := some 0,
+                      strat := some cxLoadSlow },
+                    { kind := .evict, task := ⟨0, 0⟩, profile := 5, time := some 3, pool := some 0, worker := some 0 }],
+                   1, none⟩,
+                  ⟨[], 1, none⟩, ⟨[], 1, none⟩, ⟨[], 1, none⟩, ⟨[], 1, none⟩] }
+
+set_option maxRecDepth 100000 in
+/-- **COUNTEREXAMPLE (finding): "loaded ⇒ held" fails for profiles.** A run from a well-formed
+world ends normally with profile 5 loaded (`_available_profiles`) on a worker whose ledger is
+empty and whose capacity is entirely available. -/
+theorem profile_loaded_without_entry_counterexample :
+    lwf0 cxWorld = true ∧ (simulate cxWorld 30).1 = none ∧
+    (cxWorker (simulate cxWorld 30).2).map (fun w => AList.keys w.availProf) = some [5] ∧
+    (cxWorker (simulate cxWorld 30).2).map (fun w => w.res.allocs) = some [] ∧
+    (cxWorker (simulate cxWorld 30).2).map (fun w => decide (w.res.avail = w.res.total)) = some true := by
+  decide +kernel
+
 end ErdosVerif.C04
